@@ -231,14 +231,15 @@ def slot? (s : String) : Option Nat :=
 def bytes? (s : String) : Option (List UInt8) :=
   (hexBytes? s).map fun l => l.takeWhile (· ≠ 0)
 
-/-- `tickit_pen_new_attrs` on (attr, value) pairs with valid attributes only (the generator's contract). -/
-def newAttrs (pairs : List (Int × String)) : Option (Pen × PenDict) :=
+/-- Dictionary meaning of `tickit_pen_new_attrs` on (attr, value) pairs with valid attributes (the generator's
+    contract): the sequence of direct calls on an empty dictionary.  A value outside the property's range is taken
+    as the model stores it; a description is taken as the model parses it (its own clauses are checked by `desc`). -/
+def newAttrsDict (pairs : List (Int × String)) : Option (Pen × PenDict) :=
   pairs.foldlM (init := (Pen.new, PenDict.empty)) fun (p, d) (ac, v) =>
     if ac = TICKIT_PEN_FG_DESC ∨ ac = TICKIT_PEN_BG_DESC then do
       let a ← PenAttr.ofCode? (ac - 0x100)
       let s ← bytes? v
       let r := Pen.setColourAttrDesc glibcScanf p a s
-      -- dictionary: the structural clause, with idx/rgb as the model parsed them
       let d' := if r.1 then
           let d1 := d.setColour a (r.2.getColourAttr a)
           if r.2.hasColourAttrRgb8 a then d1.setRgb8 a (r.2.getColourAttrRgb8 a) else d1
@@ -249,8 +250,15 @@ def newAttrs (pairs : List (Int × String)) : Option (Pen × PenDict) :=
       let n ← int? v
       match a.type with
       | .bool => pure (p.setBoolAttr a (n ≠ 0), d.setBool a (n ≠ 0))
-      | .int => pure (p.setIntAttr a n, d.setInt a ((p.setIntAttr a n).getIntAttr a))
-      | .colour => pure (p.setColourAttr a n, d.setColour a ((p.setColourAttr a n).getColourAttr a))
+      | .int => pure (p.setIntAttr a n, d.setInt a (if representable a n then n else (p.setIntAttr a n).getIntAttr a))
+      | .colour => pure (p.setColourAttr a n, d.setColour a (if representable a n then n else (p.setColourAttr a n).getColourAttr a))
+
+/-- The variadic argument list the harness passes: the pairs, then the terminating 0. -/
+def vaArgs (pairs : List (Int × String)) : Option (List VaArg) := do
+  let l ← pairs.mapM fun (ac, v) =>
+    if ac = TICKIT_PEN_FG_DESC ∨ ac = TICKIT_PEN_BG_DESC then (bytes? v).map fun s => [VaArg.int ac, VaArg.str s]
+    else (int? v).map fun n => [VaArg.int ac, VaArg.int n]
+  pure (l.flatten ++ [VaArg.int 0])
 
 def pairsOf : List String → Option (List (Int × String))
   | [] => some []
@@ -430,9 +438,9 @@ def step (st : St) (ts : List String) (impl : String) : St × String × String :
         match n.toNat?, pairsOf prs with
         | some n, some pairs =>
           if pairs.length ≠ n then bad st else
-          match newAttrs pairs with
-          | some (p, d') => finish (setO { pen := p }) (setD d') "-" (some "-") ""
-          | none => bad st
+          match vaArgs pairs >>= Pen.newAttrs glibcScanf, newAttrsDict pairs with
+          | some p, some (_, d') => finish (setO { pen := p }) (setD d') "-" (some "-") ""
+          | _, _ => bad st
         | _, _ => bad st
       | _, _ => bad st
   | _ => bad st
